@@ -56,9 +56,25 @@ def gen_c06_ready_handler(rnd, sid):
 LEAN_MODULES = ["C06", "C06b"]
 
 
+def gen_rawread(rnd):
+    """the console read itself, below the seam the sessions use: a content of the standard input (lines with and without a final line end, empty lines, blanks, other
+    control characters), read n times"""
+    pieces = [rnd.choice(["x", "", "  spaced  ", "last", "c", "tab\there", "cr\r", "é"]) for _ in range(rnd.randint(0, 5))]
+    content = "\n".join(pieces) + rnd.choice(["", "\n"])
+    return {"op": "rawread", "content": content, "n": len(pieces) + rnd.randint(0, 2)}
+
+
+def rawread_rule(case, obs):
+    pieces = case["content"].split("\n")
+    exp = [pieces[i] if i < len(pieces) else "" for i in range(case["n"])]          # a line is delivered intact; the end of the input is the empty line
+    if obs["lines"] != exp: return "the standard input %r read %d times gave %r; typed lines intact and end-of-file as the empty line would be %r" % (case["content"], case["n"], obs["lines"], exp)
+    return None
+
+
 def generate(rnd, tier):
     n = 700 if tier == "quick" else 8000
     sid = SidCounter()
+    raw = [gen_rawread(rnd) for _ in range(n // 4)]
     cases = [gen_c06_ready_handler(rnd, sid) for _ in range(n // 10)]
     for _ in range(n):
         c = gen_case(rnd, "tame", sid)
@@ -73,7 +89,7 @@ def generate(rnd, tier):
         c["handlers"][0]["scripts"] = [[["push_modal", 1, rnd.choice([None, 1])]] for _ in range(3)]
         c["deliver_at"] = sorted(set(rnd.sample(range(5, 12), rnd.randint(1, 3)) + rnd.sample(range(12, 40), rnd.randint(0, 3))))
         cases.append(c)
-    return [with_cc(c) for c in cases]
+    return [with_cc(c) for c in cases] + raw
 
 
 def corpus():
@@ -185,3 +201,22 @@ def run_witness(wit):
 
 def nontrivial(case, obs):
     return sum(1 for e in obs["log"] if e[0] == "cb" and e[2] == "input") >= 2
+
+
+_c06_run_impl, _c06_model_case, _c06_monitor, _c06_nontrivial, _c06_compare = run_impl, model_case, monitor, nontrivial, compare
+_c06_outcome, _c06_shrink, _c06_classify, _c06_truncate = outcome, shrink, classify, truncate
+
+
+def run_impl(case):
+    if case.get("op") == "rawread":
+        from harness.impl.render import run_impl as pure_run
+        return pure_run(case)
+    return _c06_run_impl(case)
+def model_case(case): return None if case.get("op") == "rawread" else _c06_model_case(case)          # (judged by the oracle only)
+def monitor(case, obs): return rawread_rule(case, obs) if case.get("op") == "rawread" else _c06_monitor(case, obs)
+def nontrivial(case, obs): return len(case["content"]) > 2 if case.get("op") == "rawread" else _c06_nontrivial(case, obs)
+def compare(case, impl, model): return None if case.get("op") == "rawread" else _c06_compare(case, impl, model)
+def outcome(case, obs): return "rawread" if case.get("op") == "rawread" else _c06_outcome(case, obs)
+def shrink(case): return iter(()) if case.get("op") == "rawread" else _c06_shrink(case)
+def classify(case, obs, verdict, model): return None if case.get("op") == "rawread" else _c06_classify(case, obs, verdict, model)
+def truncate(case, obs, model): return obs if case.get("op") == "rawread" else _c06_truncate(case, obs, model)
